@@ -35,7 +35,12 @@ type c02Case struct {
 	Msg    *msgJSON `json:"msg,omitempty"`
 	Header *c02Hdr  `json:"header,omitempty"`
 	Bytes  *c04Case `json:"bytes,omitempty"`
+	// Then: the evaluation that follows Msg on the same process (kind "retain")
+	Then *msgJSON `json:"then,omitempty"`
 }
+
+// c02Held is the previous successful round trip of this worker (see heldCodec).
+var c02Held *heldCodec
 
 type c02Hdr struct {
 	Major, Minor, Type int
@@ -141,7 +146,15 @@ func c02Value(c *Ctx, s layoutSpec, m *ref.Msg) {
 	}
 	if diff := sameMsg(m, fromImpl(d)); diff != "" {
 		fail("roundtrip", firstWord(diff), "decode(encode(v)) != v: "+diff)
+		return
 	}
+	// identical means identical for as long as the caller holds it: the previous round trip's results survive this one
+	if what := c02Held.changed(); what != "" {
+		pj := compactMsg(specByName(c02Held.L.Name), c02Held.M)
+		c.R.Violate("retain/"+c02Held.L.Name+"/"+firstWord(what), fmt.Sprintf("%s after %s then %s: %s", c02Held.L.Name, c02Held.M.String(), m.String(), what),
+			c02Case{Kind: "retain", Msg: pj, Then: compactMsg(s, m)})
+	}
+	c02Held = holdCodec(s.L, m, v, b, b, d)
 }
 
 func lensOf(m *ref.Msg) string {
@@ -473,6 +486,12 @@ func c02Replay(c *Ctx, raw json.RawMessage) {
 	switch cs.Kind {
 	case "value":
 		l, m := expandMsg(*cs.Msg)
+		c02Value(c, specByName(l.Name), m)
+	case "retain":
+		c02Held = nil
+		l, m := expandMsg(*cs.Msg)
+		c02Value(c, specByName(l.Name), m)
+		l, m = expandMsg(*cs.Then)
 		c02Value(c, specByName(l.Name), m)
 	case "header":
 		c02Header(c, *cs.Header)
